@@ -16,7 +16,9 @@ RULE = (
     "(1e-3..1e3) * unit noise (Hypothesis floats, or a case-seeded stream for "
     "long sequences), also constant and single-element sequences, fed by "
     "update(), by update_from_it() in generated chunkings and in a generated "
-    "permutation; 2-4 correlated series for the covariance classes. Oracle: "
+    "permutation; 2-4 correlated series for the covariance classes (optionally rounded "
+    "to integers / quarters, and with single samples at which two series "
+    "coincide exactly). Oracle: "
     "exact Fraction arithmetic on the float inputs (count, mean, population "
     "variance, std, err=std/sqrt(n), covariance, sample covariance, matrix "
     "symmetry) with tolerance 8*n*2^-53*max|x| on mean/std/err and the "
@@ -179,6 +181,14 @@ def run_cov(case):
                             "seed": spec["seed"], "n": n, "dist": "uniform"})
         a = spec["mix"]
         series.append([a * b + o for b, o in zip(base, own)])
+    if case.get("discrete"):
+        # rounded / integer-valued data: equal values in different series
+        # at the same sample are common
+        series = [[float(round(v_ * case["discrete"])) / case["discrete"]
+                   for v_ in s] for s in series]
+    for pos, j in case.get("ties", []):
+        # single samples at which two series coincide exactly
+        series[1 + j % (k - 1)][pos % n] = series[0][pos % n]
     S = [max(abs(x) for x in s) for s in series]
     sig = []
     for s in series:
@@ -346,7 +356,11 @@ def cov_strategy(draw):
                "mix": draw(st.sampled_from([0.0, 1.0, -1.0, 0.5, 2.0]))}
               for _ in range(k)]
     return {"series": spec, "k": k, "others": others,
-            "feed": draw(st.sampled_from(["update", "it", "it_array"]))}
+            "feed": draw(st.sampled_from(["update", "it", "it_array"])),
+            "ties": draw(st.lists(st.tuples(st.integers(0, 199),
+                                            st.integers(0, 3)).map(list),
+                                  max_size=3)),
+            "discrete": draw(st.sampled_from([None, None, 1, 4]))}
 
 
 @st.composite
